@@ -92,7 +92,7 @@ def handle (st : St) (fs : List String) : St × String :=
     match decBool host, decStr root with
     | some h, some r => ({ host := h, root := r }, "ok")
     | _, _ => (st, "bad-op")
-  | "elem" :: kind :: rp :: sa :: cmd :: args :: image :: engine :: cid :: fault :: _n :: lines =>
+  | "elem" :: kind :: rp :: sa :: cmd :: args :: image :: engine :: cid :: fault :: unsplit :: _n :: lines =>
     match decKind kind, decStr rp, optStr sa, optStr cmd, decArgs args, optStr image, optStr engine, optStr cid, decLines lines with
     | some k, some rp, some sa, some cmd, some args, some image, some engine, some cid, some ls =>
       let load : Option (Except Fault (List Str)) :=
@@ -100,7 +100,8 @@ def handle (st : St) (fs : List String) : St × String :=
       match load with
       | some load =>
         let p : Provider := { kind := k, relativePath := rp, saveAs := sa, cmd := cmd, args := args,
-                              image := image, engine := engine, containerId := cid, load := load }
+                              image := image, engine := engine, containerId := cid, unsplit := unsplit = "1",
+                              load := load }
         ({ st with pending := st.pending ++ [p] }, encStr (relOf p))
       | none => (st, "bad-op")
     | _, _, _, _, _, _, _, _, _ => (st, "bad-op")
